@@ -10,8 +10,9 @@ struct argstr { size_t n; };            /* a std::string argument: only its size
    can be performed and std::out_of_range when the value does not fit (trusted: [string.conversions]) */
 static struct { long value; size_t end; _Bool out_of_range, invalid; } STOL;
 static _Bool g_stol_out_of_range;
-static long stol_model(const struct argstr *s, size_t *end)
+static long stol_model(const struct argstr *s, size_t *end, int base)
 {
+  __CPROVER_assert(base == 10, "C04: track and sector numbers are read as decimal (std::stol base 10)");
   __CPROVER_assume(STOL.end <= s->n && STOL.invalid == (STOL.end == 0));
   g_stol_out_of_range = 0;
   if (STOL.invalid) { VERIF_THROW(Other, 0); return 0; }             /* std::invalid_argument, by value */
